@@ -146,6 +146,20 @@ def OTO.ofPairs (ps : List (α × α)) : OTO α :=
   else
     ⟨(putAll [] ((putAll [] ps).map swap)).map swap, putAll [] ((putAll [] ps).map swap)⟩
 
+/-- is `hint` an admissible outcome of `OneToOne(pairs)`: a bijection made of items of `dict(pairs)` that keeps every
+    value of `dict(pairs)` - under whichever of its keys (the property does not say which; the code keeps the one
+    the dict iteration order puts last) -/
+def OTO.admissible (ps hint : List (α × α)) : Bool :=
+  decide (hint.map Prod.fst).Nodup && decide (hint.map Prod.snd).Nodup &&
+  hint.all (fun p => decide (lookup p.1 (putAll ([] : Dict α α) ps) = some p.2)) &&
+  (putAll ([] : Dict α α) ps).all (fun p => decide (p.2 ∈ hint.map Prod.snd))
+
+/-- `OneToOne(pairs)` where the items the implementation ended up with are known (`hint`): any admissible outcome is
+    accepted, anything else falls back to `ofPairs`.  Lets the correspondence cover `OneToOne(other, **kw)` with
+    colliding values without fixing the iteration order of `other`. -/
+def OTO.ofPairsAs (ps hint : List (α × α)) : OTO α :=
+  if OTO.admissible ps hint then ⟨hint, hint.map swap⟩ else OTO.ofPairs ps
+
 /-- `OneToOne.unique(pairs)`: ValueError when a value occurs under two keys -/
 def OTO.uniqueOfPairs (ps : List (α × α)) : Option (OTO α) :=
   if (putAll [] ((putAll [] ps).map swap)).length = (putAll ([] : Dict α α) ps).length then
@@ -189,6 +203,7 @@ deriving Repr
 
 inductive OtoCmd (α : Type) where
   | new (src : Src α)
+  | newAs (src : Src α) (hint : List (α × α))          -- constructor, outcome known (acceptance style)
   | unique (src : Src α)
   | copy (r : Nat) (side : Bool)
   | op (r : Nat) (side : Bool) (op : OtoOp α)
@@ -202,6 +217,7 @@ def resolveOto (regs : List (OTO α)) : Src α → Option (List (α × α))
 /-- one command on the register file; `none` = the command names a register that does not exist -/
 def otoCmd (regs : List (OTO α)) : OtoCmd α → Option (List (OTO α) × Ret α)
   | .new src => (resolveOto regs src).map fun ps => (regs ++ [OTO.ofPairs ps], .none)
+  | .newAs src hint => (resolveOto regs src).map fun ps => (regs ++ [OTO.ofPairsAs ps hint], .none)
   | .unique src => (resolveOto regs src).map fun ps =>
       match OTO.uniqueOfPairs ps with
       | some s => (regs ++ [s], .none)
